@@ -65,6 +65,7 @@ structure DS where
   closes : List String := []
   dials : List String := []
   err : Option String := none         -- a step the model does not enable was asked for
+  small : Bool := false               -- the connection table is too small for any descriptor number
 
 def DS.get (d : DS) (id : Nat) : Option E := d.es.find? (·.id == id)
 def DS.put (d : DS) (e : E) : DS :=
@@ -247,6 +248,11 @@ partial def loop (h : IO.FS.Stream) (d : DS) : IO Unit := do
       IO.println "ok"
       loop h { mode, maxwb := mw.toNat!, stopped := false, listen := ln == "1" }
     else bad
+  | ["C", mode, np, mw, ln, _async, tbl] =>
+    if (mode == "lt" || mode == "et" || mode == "os") && np.toNat! > 0 && !(tbl == "1" && ln == "1") then
+      IO.println "ok"
+      loop h { mode, maxwb := mw.toNat!, stopped := false, listen := ln == "1", small := tbl == "1" }
+    else bad
   | ["C", mode, np, mw, ln, _async] =>
     -- AsyncReadInPoller: who reads (poller or read task) is not part of the lifecycle; every op ends quiescent
     if (mode == "lt" || mode == "et" || mode == "os") && np.toNat! > 0 then
@@ -255,8 +261,16 @@ partial def loop (h : IO.FS.Stream) (d : DS) : IO Unit := do
     else bad
   | _ =>
     if d.stopped then bad else
+    if d.small && ["addc", "addx", "addcr", "addudp", "dialx", "dialrace", "acc", "rdial", "hupbusy", "dgram"].contains (ws.headD "") then bad else
     match ws with
     | ["add", id, typ] =>
+      if d.small then
+        -- addConn's "too many open files" branch: closeWithError on a conn no poller owns, the error is returned
+        let id := id.toNat!
+        if (d.get id).isSome || !(typ == "tcp" || typ == "unix") then bad else
+        let d := closeE (newE d { id, c := mk .add, unix := typ == "unix" } .add) id .other
+        say d "add" "other" (some id)
+      else
       let id := id.toNat!
       if (d.get id).isSome || !(typ == "tcp" || typ == "unix") then bad else
       let d := stepsE (newE d { id, c := mk .add, unix := typ == "unix" } .add) id [.addCheck, .addP, .addOpen, .addTable, .addReg]
@@ -339,6 +353,9 @@ partial def loop (h : IO.FS.Stream) (d : DS) : IO Unit := do
       if kind == "refused" then
         -- connect(2) failed at once: DialAsync returns the error, nobody ever sees a conn
         say (stepE d id (.dialStartFail .refused)) "dial" "refused" none
+      else if d.small then
+        -- addDialer's "too many open files" branch: the error return is the one report
+        say (stepE d id (.dialStartFail .other)) "dial" "other" none
       else
         let d := stepsE d id [if kind == "now" then .dialNow else .dialStart, .armDial]
         -- a dial timeout is waited for inside the op: the timer that is armed fires
